@@ -13,8 +13,8 @@ use crate::model::{
     access_calls, access_calls_reset, built_edges, conflict, ref_data_edges, ref_ranks,
     root_path_count, user_edges, BitMat, GraphSpec, Kind, TestFn, N_TYPES, N_TYPES_MAX,
 };
-use crate::oracle::Violation;
-use crate::single::hash_of;
+use crate::violation::Violation;
+use crate::violation::hash_of;
 use crate::tape::Tape;
 
 fn v(prop: &str, kind: &str, msg: String) -> Violation {
